@@ -45,6 +45,11 @@ impl<R: Read> ZipStreamReader<R> {
             visitor.visit_file(&mut file)?;
         }
 
+        // `read_zipfile_from_stream` returned `None` because it consumed the signature of the first
+        // central directory header: parse the rest of that record without expecting it again.
+        let metadata = central_header_to_zip_file_inner(&mut self.0, 0, 0).map(ZipStreamFileMetadata)?;
+        visitor.visit_additional_metadata(&metadata)?;
+
         while let Some(metadata) = self.parse_central_directory()? {
             visitor.visit_additional_metadata(&metadata)?;
         }
